@@ -234,8 +234,11 @@ class ProxyProtocolV2(object):
             'Invalid proxy protocol v2 signature'
         assert data[12] & 0xf0 == 0x20, 'Invalid proxy protocol version'
         command = cls.__commands.get(data[12] & 0x0f)
+        assert command is not None, 'Invalid proxy protocol command'
         family = cls.__families.get(data[13] & 0xf0)
         protocol = cls.__protocols.get(data[13] & 0x0f)
+        assert family is None or protocol is not None, \
+            'Invalid proxy protocol transport protocol'
         addr_len = struct.unpack('!H', data[14:16])[0]
         return command, family, protocol, addr_len
 
